@@ -67,6 +67,9 @@ func buildCases(tier string, u *universe) (cs []caseDef) {
 	for _, en := range engineNames {
 		cs = append(cs, caseDef{Part: 7, Engine: en})
 	}
+	for a := range p8Alphabet() {
+		cs = append(cs, caseDef{Part: 8, Prefix: []int{a}, Depth: 3})
+	}
 	for _, s := range p1bShards() {
 		s := s
 		cs = append(cs, caseDef{Part: 6, RShard: &s})
@@ -142,6 +145,7 @@ type childState struct {
 	p2        *p2Env
 	p4        *p4Env
 	p5        *p5Env
+	p8        *p8Env
 	ops       map[string][]opDef
 	confirmed map[string]bool
 }
@@ -203,6 +207,57 @@ func (cs *childState) runCase(cd caseDef) caseResult {
 			b, _ := json.Marshal(v)
 			res.Viols = append(res.Viols, b)
 		}
+	case 8:
+		if cs.p8 == nil {
+			cs.p8 = newP8Env()
+		}
+		alpha := p8Alphabet()
+		st := newP2Stats()
+		word := make([]int, cd.Depth)
+		copy(word, cd.Prefix)
+		var rec func(pos int)
+		rec = func(pos int) {
+			if pos == cd.Depth {
+				for _, v := range cs.p8.runWord8(alpha, word, st, nil) {
+					key := "8|" + v.Engine + "|" + v.Sig
+					if !cs.confirmed[key] {
+						fresh := newP8Env()
+						again := fresh.runWord8(alpha, word, newP2Stats(), nil)
+						fresh.close()
+						found := false
+						for _, a := range again {
+							if a.Sig == v.Sig && a.Engine == v.Engine {
+								found = true
+							}
+						}
+						if !found {
+							res.Flaky = append(res.Flaky, fmt.Sprintf("part8 %s: %s not reproduced in a fresh runtime", v.Sig, v.What))
+							continue
+						}
+						cs.confirmed[key] = true
+					}
+					b, _ := json.Marshal(v)
+					res.Viols = append(res.Viols, b)
+				}
+				return
+			}
+			for k := range alpha {
+				word[pos] = k
+				rec(pos + 1)
+			}
+		}
+		rec(len(cd.Prefix))
+		res.Evals = st.Words * int64(len(engineNames))
+		res.Steps, res.Reads, res.EngCmp = st.Steps, st.Reads, st.EngineCompares
+		for k, v := range st.Outcomes {
+			res.Outcomes[k] = v
+		}
+		res.States, res.Trans = setKeys(st.States), setKeys(st.Trans)
+		names := []string{}
+		for _, k := range word {
+			names = append(names, alpha[k].String())
+		}
+		res.Sample = map[string]any{"part": 8, "last_word_of_case": names}
 	case 7:
 		oc, evals, vs := runP7(cd.Engine)
 		res.Evals = evals
@@ -483,6 +538,30 @@ func doReplay(file string) {
 			fmt.Printf("  STILL FAILS: %s: %s\n", v.Sig, v.What)
 			failed = true
 		}
+	case 8:
+		var r p8Viol
+		json.Unmarshal(doc.Replay, &r)
+		alpha := p8Alphabet()
+		var word []int
+		for _, n := range r.Word {
+			found := false
+			for i := range alpha {
+				if alpha[i].String() == n {
+					word = append(word, i)
+					found = true
+				}
+			}
+			if !found {
+				fw.Fatalf("replay: unknown step %q", n)
+			}
+		}
+		e := newP8Env()
+		vs := e.runWord8(alpha, word, newP2Stats(), func(s string) { fmt.Println(s) })
+		e.close()
+		for _, v := range vs {
+			fmt.Printf("  STILL FAILS: %s: %s\n", v.Sig, v.What)
+			failed = true
+		}
 	case 7:
 		for _, en := range engineNames {
 			_, n, vs := runP7(en)
@@ -625,7 +704,7 @@ func main() {
 	outcomes := fw.NewCounter()
 	samples := fw.NewSampler(16)
 	states, trans, pairs := map[uint64]struct{}{}, map[uint64]struct{}{}, map[uint64]struct{}{}
-	var p1Evals, p2Evals, p4Evals, p4Steps, p5Evals, p5Steps, steps, na, reads, engcmp, crashes int64
+	var p1Evals, p2Evals, p4Evals, p4Steps, p5Evals, p5Steps, p8Evals, steps, na, reads, engcmp, crashes int64
 	var flaky []string
 	stopped := false
 	var retry []int
@@ -643,6 +722,8 @@ func main() {
 		case 5:
 			p5Evals += r.Evals
 			p5Steps += r.Steps
+		case 8:
+			p8Evals += r.Evals
 		default:
 			p1Evals += r.Evals
 		}
@@ -704,6 +785,10 @@ func main() {
 					ops := buildOps(*cd.Cfg)
 					desc = fmt.Sprintf("words of %s starting with %s %s", cd.Cfg, ops[cd.Prefix[0]].Name, ops[cd.Prefix[1]].Name)
 					sig = "crash:p2:" + ops[cd.Prefix[0]].Name + ":" + ops[cd.Prefix[1]].Name
+				}
+				if cd.Part == 8 {
+					desc = fmt.Sprintf("part 8 words starting with %s", p8Alphabet()[cd.Prefix[0]])
+					sig = "crash:p8"
 				}
 				if cd.Part == 6 {
 					desc = fmt.Sprintf("part 1b layout %s chain %d", cd.RShard.Layout, cd.RShard.Chain)
@@ -792,9 +877,16 @@ func main() {
 		}
 		bounds["part5"] = map[string]any{"alphabet": len(names), "depth": d, "ops": strings.Join(names, " "), "instances": "E5 + three instances of one compiled module S (S1, S2, anonymous)"}
 	}
+	{
+		var names []string
+		for _, st := range p8Alphabet() {
+			names = append(names, st.String())
+		}
+		bounds["part8"] = map[string]any{"alphabet": len(names), "depth": 3, "steps": strings.Join(names, " "), "what": "one compiled consumer per word, instantiated once per step against a fresh provider instance of the step's variant"}
+	}
 	om := outcomes.Map()
 	run.Finish(fw.Coverage{
-		Evaluations:     p1Evals + p2Evals + p4Evals + p5Evals,
+		Evaluations:     p1Evals + p2Evals + p4Evals + p5Evals + p8Evals,
 		DistinctNontriv: int64(len(pairs)) + int64(len(trans)),
 		States:          int64(len(states)), Transitions: steps, TracesValidated: steps,
 		Rule: "part 1: distinct (current external type of the export, declared import type) pairs, each instantiated on both engines; " +
@@ -803,7 +895,7 @@ func main() {
 		Samples: samples.List(), Exhaustive: true, Outcomes: om, Bounds: bounds,
 		Extra: map[string]any{
 			"part1_instantiations": p1Evals, "part1b_layouts": p1bLayoutNames, "part1_distinct_type_pairs": len(pairs),
-			"part2_word_executions": p2Evals, "part4_word_executions": p4Evals, "part4_steps": p4Steps, "part5_word_executions": p5Evals, "part5_steps": p5Steps, "parts245_distinct_state_op_pairs": len(trans), "parts245_not_applicable_steps": na,
+			"part2_word_executions": p2Evals, "part4_word_executions": p4Evals, "part4_steps": p4Steps, "part5_word_executions": p5Evals, "part5_steps": p5Steps, "part8_word_executions": p8Evals, "parts245_distinct_state_op_pairs": len(trans), "parts245_not_applicable_steps": na,
 			"parts245_reads_compared_with_model": reads, "parts245_engine_lockstep_comparisons": engcmp, "child_crashes": crashes, "watchdog_reruns": len(retry),
 			"cases": len(cases), "cases_completed": done,
 		},
